@@ -1,6 +1,8 @@
 package props
 
 import (
+	"fmt"
+	"go/token"
 	"strings"
 
 	"occheck/internal/engine"
@@ -43,7 +45,8 @@ func init() {
 			"(5) nothing new is applied while SYNCHRONIZING or while the applied term is behind (shared with C04).",
 		Declined: []string{"that at most one node believes itself master at an instant (a distributed property)", "the device's own arbitration"},
 		Run:      runC10,
-		Witness:  []WitnessTarget{{pkgMastershipCtl, []string{"Reconciler."}}, {pkgConnectionCtl, []string{"Reconciler."}}, {pkgConfigCtl, []string{"Reconciler."}}, {pkgProposalCtl, []string{"reconcileApply"}}},
+		Witness: []WitnessTarget{{pkgMastershipCtl, []string{"Reconciler."}}, {pkgConnectionCtl, []string{"Reconciler."}}, {pkgConfigCtl, []string{"Reconciler."}}, {pkgProposalCtl, []string{"reconcileApply"}},
+			{"pkg/southbound/gnmi", []string{"connManager.Connect", "connManager.addConn", "connManager.removeConn", "newConn"}}},
 	})
 }
 
@@ -121,6 +124,7 @@ func runC10(c *engine.Ctx, tier string) {
 	c.Guard(engine.Guard{ID: "C10.5", Pkg: pkgProposalCtl, Min: 1, Sel: engine.Sel{Call: sbSet},
 		Require: "!(@CFG.Status.State == config/v2.ConfigurationStatus_SYNCHRONIZING) && !(@CFG.Status.Applied.Mastership.Term < @CFG.Status.Mastership.Term)",
 		Why:     "no new change is sent in a term before the previously applied configuration was re-sent in that term"})
+	connLifecycle(c)
 }
 
 // arbitration: the request passed to Client.Set had a MasterArbitration extension appended whose
@@ -257,4 +261,198 @@ func electionRule(c *engine.Ctx, id string) {
 		}
 	}
 	o.Done(4)
+}
+
+// connLifecycle: C10.6. A connection exists in the manager exactly while its channel is Ready, every
+// connection has an identity of its own, and every change of the set is announced.
+func connLifecycle(c *engine.Ctx) {
+	o := c.Custom("C10.6", "K-facts(connection lifecycle)", "newConn takes its id from newConnID(), which is built from uuid.New(); in the state loop of Connect: Ready ∧ no connection ⇒ newConn + addConn, a state other than Ready/Idle ∧ a connection ⇒ removeConn(its id) and nothing else removes or adds; addConn stores the connection under its own id and announces it; removeConn deletes it and announces it iff it was there",
+		"a re-established connection must be a new CONTROLS relation (a new term, C10.1b), a lost one must disappear (mastership is re-assigned), and the connection controller learns both from the announcements")
+	defer o.Done(6)
+	ps, err := c.A.PathsOpt("pkg/southbound/gnmi", engine.PathOpts{Roots: []string{"connManager.Connect", "connManager.addConn", "connManager.removeConn", "gnmi.newConn", "gnmi.newConnID"}, NoInline: true})
+	if err != nil || len(ps) == 0 {
+		o.Undecided("pkg/southbound/gnmi", fmt.Sprintf("no paths: %v", err))
+		return
+	}
+	reported := map[string]bool{}
+	fail := func(fn string, pos token.Pos, msg string) {
+		if !reported[msg] {
+			reported[msg] = true
+			o.Fail(&engine.Violation{Key: fn + "|" + msg, Pos: c.P.Pos(pos), Func: fn, Msg: msg})
+		}
+	}
+	seen := map[string]bool{}
+	for _, p := range ps {
+		name := p.Root.Name()
+		last := &p.Events[len(p.Events)-1]
+		o.Eval(1)
+		switch {
+		case strings.HasSuffix(name, "gnmi.newConnID"):
+			if last.Kind == engine.EvReturn && len(last.Results) == 1 {
+				seen["newConnID"] = true
+				o.Site(c.P.Pos(last.Pos) + " newConnID")
+				if !strings.Contains(last.Results[0], "uuid.New()") {
+					fail(name, last.Pos, "the connection id is not built from a fresh uuid: "+last.Results[0])
+				}
+			}
+		case strings.HasSuffix(name, "gnmi.newConn"):
+			for i := range p.Events {
+				if e := &p.Events[i]; e.Kind == engine.EvWrite && e.Field == "southbound/gnmi.conn.id" {
+					seen["newConn"] = true
+					o.Site(c.P.Pos(e.Pos) + " conn.id")
+					if e.RHS != "southbound/gnmi.newConnID()" {
+						fail(name, e.Pos, "a new connection takes its id from "+e.RHS+", not from newConnID(): a re-established connection would reuse the old relation")
+					}
+				}
+			}
+			cl, tg := false, false
+			for i := range p.Events {
+				e := &p.Events[i]
+				if e.Kind == engine.EvWrite && e.Field == "southbound/gnmi.conn.client" && e.RHS == "$client" {
+					cl = true
+				}
+				if e.Kind == engine.EvWrite && e.Field == "southbound/gnmi.conn.targetID" && e.RHS == "$targetID" {
+					tg = true
+				}
+			}
+			if !cl || !tg {
+				fail(name, last.Pos, "a new connection is built without its client or its target id (the relation's target, C10.3e)")
+			}
+		case strings.HasSuffix(name, "connManager.addConn"):
+			stored, sent := -1, -1
+			for i := range p.Events {
+				e := &p.Events[i]
+				if e.Kind == engine.EvWrite && e.Field == "southbound/gnmi.connManager.conns[]" && e.RHS == "$conn" && strings.Contains(e.LHS, "{$conn}southbound/gnmi.Conn.ID()") {
+					stored = i
+				}
+				if e.Kind == engine.EvSend && e.Chan == "$recv.eventCh" && e.RHS == "$conn" {
+					sent = i
+				}
+			}
+			seen["addConn"] = true
+			o.Site(c.P.Pos(last.Pos) + " addConn")
+			if stored < 0 || sent < stored {
+				fail(name, last.Pos, "addConn does not store the connection under its own id and then announce it")
+			}
+		case strings.HasSuffix(name, "connManager.removeConn"):
+			present := false
+			for i := range p.Events {
+				if l := p.Events[i]; l.Kind == engine.EvCond && l.Lit.String() == "has($recv.conns[$connID])" {
+					present = true
+				}
+			}
+			deleted, sent := false, false
+			for i := range p.Events {
+				e := &p.Events[i]
+				if e.Kind == engine.EvCall && e.CalleeName == "delete" && len(e.Args) == 2 && e.Args[0] == "$recv.conns" && e.Args[1] == "$connID" {
+					deleted = true
+				}
+				if e.Kind == engine.EvSend && e.Chan == "$recv.eventCh" {
+					sent = true
+				}
+			}
+			seen["removeConn"] = true
+			o.Site(c.P.Pos(last.Pos) + " removeConn")
+			if present != deleted || present != sent {
+				fail(name, last.Pos, "removeConn deletes and announces the connection exactly when it was registered")
+			}
+		case p.Lit != nil && strings.HasSuffix(name, "connManager.Connect"):
+			// in-loop decisions of one iteration
+			in := false
+			ready, idle, notReady, notIdle, connNil, connSet := false, false, false, false, false, false
+			added, removed := false, false
+			var removedArg string
+			for i := range p.Events {
+				e := &p.Events[i]
+				switch e.Kind {
+				case engine.EvLoopEnter:
+					in = true
+				case engine.EvLoopExit:
+					in = false
+				case engine.EvCond:
+					if !in {
+						continue
+					}
+					s := e.Lit.String()
+					switch {
+					case strings.HasSuffix(s, "GetState() == connectivity.Ready"):
+						ready = true
+					case strings.HasSuffix(s, "GetState() != connectivity.Ready"):
+						notReady = true
+					case strings.HasSuffix(s, "GetState() == connectivity.Idle"):
+						idle = true
+					case strings.HasSuffix(s, "GetState() != connectivity.Idle"):
+						notIdle = true
+					case strings.HasPrefix(s, "?conn") && strings.HasSuffix(s, "== nil"):
+						connNil = true
+					case strings.HasPrefix(s, "?conn") && strings.HasSuffix(s, "!= nil"):
+						connSet = true
+					}
+				case engine.EvCall:
+					if !in {
+						continue
+					}
+					if strings.HasSuffix(e.CalleeName, "connManager.addConn") && len(e.Args) == 1 && strings.HasPrefix(e.Args[0], "southbound/gnmi.newConn(") {
+						added = true
+					}
+					if strings.HasSuffix(e.CalleeName, "connManager.removeConn") && len(e.Args) == 1 {
+						removed = true
+						removedArg = e.Args[0]
+					}
+				}
+			}
+			if !(ready || notReady) {
+				continue
+			}
+			seen["loop"] = true
+			o.Site(c.P.Pos(last.Pos) + " state loop iteration")
+			// before the loop: a channel that is Ready at once gets its connection at once
+			preReady, preAdded := false, false
+			cleared := false
+			for i := range p.Events {
+				e := &p.Events[i]
+				if e.Kind == engine.EvLoopEnter {
+					break
+				}
+				if e.Kind == engine.EvCond && strings.HasSuffix(e.Lit.String(), "GetState() == connectivity.Ready") {
+					preReady = true
+				}
+				if e.Kind == engine.EvCall && strings.HasSuffix(e.CalleeName, "connManager.addConn") && len(e.Args) == 1 && strings.HasPrefix(e.Args[0], "southbound/gnmi.newConn(") {
+					preAdded = true
+				}
+			}
+			for i := range p.Events {
+				if e := &p.Events[i]; e.Kind == engine.EvWrite && e.Local != nil && e.Local.Name() == "conn" && e.RHS == "nil" {
+					cleared = true
+				}
+			}
+			switch {
+			case preReady != preAdded:
+				fail(name, last.Pos, "a channel that is Ready when the goroutine starts gets a connection created and added before the state loop, and only then")
+			case ready && !connNil && !connSet:
+				fail(name, last.Pos, "a Ready iteration does not look at whether a connection is already registered")
+			case notReady && notIdle && !connNil && !connSet:
+				fail(name, last.Pos, "an iteration in a state other than Ready/Idle does not look at whether a connection is registered")
+			case removed && !cleared:
+				fail(name, last.Pos, "after removing the connection the goroutine still holds it: the next Ready state would not create a new one")
+			case ready && connNil && !added:
+				fail(name, last.Pos, "the channel became Ready with no connection registered, and none is created and added")
+			case added && !(ready && connNil):
+				fail(name, last.Pos, "a connection is added in the state loop without 'Ready ∧ no connection yet'")
+			case notReady && notIdle && connSet && !removed:
+				fail(name, last.Pos, "the channel left Ready (and is not Idle) while a connection is registered, and it is not removed: mastership stays with a dead connection")
+			case removed && !(notReady && notIdle && connSet):
+				fail(name, last.Pos, "a connection is removed in the state loop without 'state other than Ready/Idle ∧ a connection registered'")
+			case removed && !strings.Contains(removedArg, "?conn") && !strings.Contains(removedArg, "Conn.ID()"):
+				fail(name, last.Pos, "removeConn is given "+removedArg+", not the registered connection's id")
+			case idle && (added || removed):
+				fail(name, last.Pos, "an Idle channel adds or removes a connection")
+			}
+		}
+	}
+	for _, k := range []string{"newConnID", "newConn", "addConn", "removeConn", "loop"} {
+		if !seen[k] {
+			o.Undecided(k, "anchor not found")
+		}
+	}
 }
